@@ -198,6 +198,48 @@ def read_part(ctx):
     return n
 
 
+def include_part(ctx):
+    """Files pulled in by the include directive are input too: the same included Markdown file stored with LF / CRLF / CR line ends, with and
+    without its final newline, must give the same page."""
+    import mistune, tempfile, shutil, os
+    from mistune.directives import FencedDirective, RSTDirective, Include
+    n = 0
+    tmp = tempfile.mkdtemp(prefix="verif-c16i-")
+    try:
+        incs = ["# t\n\npara\nmore\n", "- a\n- b\n\n```\ncode\n\nx\n```\n", "> q\n> r\n\nlast line", "a  \nb\\\nc\n\n[l]: /u\n\n[l]\n", "| h |\n|---|\n| c |\n"]
+        incs += [gen.md_any(ctx.rng, 5).replace("\r", "") for _ in range(15 if ctx.quick() else 400)]
+        for style in ("rst", "fenced"):
+            D = RSTDirective if style == "rst" else FencedDirective
+            md = mistune.create_markdown(plugins=["table", D([Include()])])
+            page = ("before\n\n.. include:: inc.md\n\nafter\n" if style == "rst" else "before\n\n```{include} inc.md\n```\n\nafter\n")
+            with open(os.path.join(tmp, "page.md"), "w", encoding="utf-8", newline="") as f:
+                f.write(page)
+            for d in incs:
+                if not d:
+                    continue
+                outs = {}
+                for kind, e in (("lf", "\n"), ("crlf", "\r\n"), ("cr", "\r"), ("lf-nofinal", None)):
+                    if e is None and not (d.endswith("\n") and not d.endswith("\n\n")):
+                        outs[kind] = None       # "the missing final newline": only a text that ends in exactly one line end has such a variant
+                        continue
+                    data = d[:-1] if e is None else d.replace("\n", e)
+                    with open(os.path.join(tmp, "inc.md"), "wb") as f:
+                        f.write(data.encode("utf-8"))
+                    try:
+                        outs[kind] = md.read(os.path.join(tmp, "page.md"))[0]
+                    except Exception as ex:
+                        outs[kind] = "EXC %s" % type(ex).__name__
+                    n += 1
+                for kind in ("crlf", "cr", "lf-nofinal"):
+                    if outs[kind] is not None and outs[kind] != outs["lf"]:
+                        ctx.fail("include-line-ending-%s" % kind, "a page including a file (%s syntax) stored with %s line ends differs from the same page with the file in LF form: %r vs %r" % (style, kind.upper(), outs[kind][:200], outs["lf"][:200]),
+                                 {"config": "include-" + style, "s": d, "variant": kind, "kind": kind})
+                        break
+    finally:
+        shutil.rmtree(tmp, ignore_errors=True)
+    return n
+
+
 def run(ctx):
     import mistune
     ctx.broken += common.proof_stage(ctx, THEOREMS)
@@ -208,6 +250,7 @@ def run(ctx):
     correspondence(ctx, mds["ast-core"], docs)
     n = oracle(ctx, mds, docs)
     n += read_part(ctx)
+    n += include_part(ctx)
     if ctx.broken and not ctx.failures:
         ctx.notes.append("search mode entered")
         n += oracle(ctx, mds, documents(ctx, big=True), per_doc_cfgs=4)
